@@ -509,6 +509,25 @@ func main() {
 		})
 	})
 
+	// 9b. every RPC the client sends: (enclosing function, method, lexically inside an argument of rpcWithRetry)
+	def("clientPbcCalls", "List (String × String × Bool)", func(add adder) {
+		for _, fd := range fns(cliF) {
+			inRetry := map[*ast.CallExpr]bool{}
+			calls(fd.Body, `^rpcWithRetry$`, func(c *ast.CallExpr, _ []string) {
+				for _, a := range c.Args {
+					each(a, func(in *ast.CallExpr) { inRetry[in] = true })
+				}
+			})
+			calls(fd.Body, `\.pbc\.(\w+)$`, func(c *ast.CallExpr, m []string) {
+				b := "false"
+				if inRetry[c] {
+					b = "true"
+				}
+				add("(" + q(fd.Name.Name) + ", " + q(m[1]) + ", " + b + ")")
+			})
+		}
+	})
+
 	// 10. normalised function bodies (long strings split into pieces of at most 1500 characters)
 	for _, b := range []struct {
 		def        string
@@ -529,6 +548,14 @@ func main() {
 		{"bodyRestOnTimeout", restF, "restHandler", "onTimeoutFunc"},
 		{"bodyTimerAdd", parse("timermap/timermap.go"), "TimerMap", "Add"},
 		{"bodyTimerRemove", parse("timermap/timermap.go"), "TimerMap", "Remove"},
+		{"bodyRenewerStart", cliF, "renewer", "Start"},
+		{"bodyRenewerStop", cliF, "renewer", "Stop"},
+		{"bodyClientUnlock", cliF, "Client", "Unlock"},
+		{"bodyClientClose", cliF, "Client", "Close"},
+		{"bodyClientRenew", cliF, "Client", "Renew"},
+		{"bodyMaybeCreateRenewer", cliF, "Client", "maybeCreateRenewer"},
+		{"bodyMaybeRemoveRenewer", cliF, "Client", "maybeRemoveRenewer"},
+		{"bodyRpcWithRetry", cliF, "", "rpcWithRetry"},
 	} {
 		def(b.def, "String", func(add adder) {
 			fn := findFn(b.f, b.rtyp, b.name)
